@@ -13,8 +13,11 @@ package main
 
 import (
 	"context"
+	"encoding/json"
 	"errors"
 	"fmt"
+	"os"
+	"sort"
 	"strings"
 	"time"
 
@@ -38,12 +41,15 @@ type txObs struct {
 	err     string
 	ok      bool
 	probe   []string // outside view after the step: per doc "absent" or value
+	listed  []int    // list: the document numbers the listing inside the transaction showed
 }
 
 func (o txOp) String() string {
 	switch o.kind {
 	case "begin", "commit", "discard":
 		return fmt.Sprintf("T%d.%s", o.txn, o.kind)
+	case "list":
+		return fmt.Sprintf("T%d.list(%s)", o.txn, map[int]string{0: "request", 1: "export"}[o.val])
 	case "read", "delete":
 		return fmt.Sprintf("T%d.%s(d%d)", o.txn, o.kind, o.doc)
 	}
@@ -62,6 +68,8 @@ func genTxnProgram(r *Rng, t int, ndocs int, fresh *int) []txOp {
 			ops = append(ops, txOp{kind: "create", txn: t, doc: *fresh, val: 100 + *fresh})
 		case 4:
 			ops = append(ops, txOp{kind: "delete", txn: t, doc: r.Intn(ndocs)})
+		case 5:
+			ops = append(ops, txOp{kind: "list", txn: t, val: r.Intn(2)})
 		default:
 			ops = append(ops, txOp{kind: "write", txn: t, doc: r.Intn(ndocs), val: 10*(t+1) + i})
 		}
@@ -131,6 +139,50 @@ func (w *txnWorld) readDoc(exec func(string) *client.RequestResult, d int) (*int
 		return nil, true, ""
 	}
 	return nil, true, fmt.Sprintf("unexpected value %v", rows[0]["bal"])
+}
+
+// list: the documents of this world a listing inside the transaction shows - through a request, or through an export
+// (the export walks the collection with GetAllDocIDs)
+func (w *txnWorld) list(t client.Txn, export bool) ([]int, string) {
+	var names []string
+	if !export {
+		res := t.ExecRequest(w.ctx, fmt.Sprintf(`query { Acct(filter: {name: {_like: "%s_d%%"}}) { name } }`, w.tag))
+		if len(res.GQL.Errors) > 0 {
+			return nil, fmt.Sprint(res.GQL.Errors)
+		}
+		for _, row := range rowsOf(asMap(res.GQL.Data), "Acct") {
+			names = append(names, fmt.Sprint(row["name"]))
+		}
+	} else {
+		f, err := os.CreateTemp("/var/tmp", "vtxnexp")
+		if err != nil {
+			return nil, err.Error()
+		}
+		f.Close()
+		defer os.Remove(f.Name())
+		if err := t.BasicExport(w.ctx, &client.BackupConfig{Filepath: f.Name(), Collections: []string{"Acct"}}); err != nil {
+			return nil, err.Error()
+		}
+		raw, _ := os.ReadFile(f.Name())
+		var parsed map[string][]map[string]any
+		if err := json.Unmarshal(raw, &parsed); err != nil {
+			return nil, "export file: " + err.Error()
+		}
+		for _, row := range parsed["Acct"] {
+			names = append(names, fmt.Sprint(row["name"]))
+		}
+	}
+	var out []int
+	for _, n := range names {
+		var d int
+		if strings.HasPrefix(n, w.tag+"_d") {
+			if _, err := fmt.Sscanf(n[len(w.tag)+2:], "%d", &d); err == nil {
+				out = append(out, d)
+			}
+		}
+	}
+	sort.Ints(out)
+	return out, ""
 }
 
 func runTxnSchedule(e *Env, ctx context.Context, x *Nd, serial int, ndocs int, sched []txOp, concurrent bool) ([]txObs, bool) {
@@ -223,6 +275,8 @@ func runTxnSchedule(e *Env, ctx context.Context, x *Nd, serial int, ndocs int, s
 			} else {
 				nWrites[o.txn]++
 			}
+		case "list":
+			ob.listed, ob.err = w.list(t, o.val == 1)
 		case "commit":
 			if err := t.Commit(ctx); err != nil {
 				ob.ok = false
@@ -329,6 +383,23 @@ func checkTxnSchedule(e *Env, sched []txOp, obs []txObs, ndocs int, replay any) 
 				e.violate("txn-read-error", fmt.Sprintf("step %d %v: %s", i, o, ob.err), replay)
 			} else if got != show(want) {
 				e.violate("snapshot-read", fmt.Sprintf("step %d %v read %s; its snapshot plus own writes gives %s", i, o, got, show(want)), replay)
+			}
+		case "list":
+			var want []int
+			for _, d := range allDocs {
+				cur, own := t.writes[d]
+				if !own {
+					cur = t.snap[d]
+				}
+				if cur != nil {
+					want = append(want, d)
+				}
+			}
+			sort.Ints(want)
+			if ob.err != "" {
+				e.violate("txn-read-error", fmt.Sprintf("step %d %v: %s", i, o, ob.err), replay)
+			} else if fmt.Sprint(ob.listed) != fmt.Sprint(want) {
+				e.violate("snapshot-read", fmt.Sprintf("step %d %v lists the documents %v; its snapshot plus own writes holds %v", i, o, ob.listed, want), replay)
 			}
 		case "write":
 			// visible document in T's view?
@@ -548,6 +619,12 @@ func txnCase(ndocs int, obs []txObs) string {
 			ops = append(ops, fmt.Sprintf("(TCreate %d %d %d %s, %s)", o.txn, o.doc, o.val, coqBool(ob.ok), ps))
 		case "delete":
 			ops = append(ops, fmt.Sprintf("(TDelete %d %d %s, %s)", o.txn, o.doc, coqBool(ob.ok), ps))
+		case "list":
+			var ls []string
+			for _, d := range ob.listed {
+				ls = append(ls, fmt.Sprint(d))
+			}
+			ops = append(ops, fmt.Sprintf("(TList %d [%s]%%nat, %s)", o.txn, strings.Join(ls, ";"), ps))
 		case "commit":
 			ops = append(ops, fmt.Sprintf("(TCommit %d %s, %s)", o.txn, coqBool(ob.ok), ps))
 		case "discard":
